@@ -27,7 +27,7 @@ package enc
 //@   modifies cb128Invert, cbInitialized
 //@   trusted "runs its body through sync.Once; only the inverse table and the Once are written"
 
-//@ property C08
+//@ property C08, C09, C10, C12
 //@ pkginv Base32Encoding != nil && Base64Encoding != nil && Base64uEncoding != nil && Base85Encoding != nil && Base91Encoding != nil && Base128Encoding != nil && Base192Encoding != nil && RawEncoding != nil   :codecs_registered
 //@ pkginv iodineBase32Encoding != nil && iodineBase64Encoding != nil && iodineBase64uEncoding != nil && iodineBase91Encoding != nil   :encodings_built
 
